@@ -176,7 +176,9 @@ fn id_text(v: &CVal) -> Option<String> {
 		CVal::Str(s) => Some(s.clone()),
 		CVal::Int(i) => Some(i.to_string()),
 		CVal::Bool(b) => Some(b.to_string()),
-		_ => None,
+		// numbers print the shortest way: 5.0 is "5"
+		CVal::F64(b) => Some(format!("{}", f64::from_bits(*b))),
+		CVal::F32(b) => Some(format!("{}", f32::from_bits(*b))),
 	}
 }
 
